@@ -473,7 +473,7 @@ def search(run, corr, deep):
     wit = oracle(run)
     tb = tables(run)
     w2 = c11_sched.oracle(run, tb)
-    w3 = c11_fwrt.oracle(run, tb["fw"], build_fw(run), fw_real(run))
+    w3 = c11_fwrt.oracle(run, tb["fw"], build_fw(run))
     corr.distribution["oracle: witnesses (consumers of the layouts)"] = len(w2)
     corr.distribution["oracle: witnesses (firmware runtime)"] = len(w3)
     found = 0
@@ -498,7 +498,7 @@ def replay(run, path):
         if w.get("kind") in ("chan-state", "consumer-lookup", "subst"):
             hit = c11_sched.replay_witness(run, tables(run), w) or []
         elif w.get("kind") == "fw-runtime":
-            hit = c11_fwrt.replay_witness(run, build_fw(run), w, fw_real(run)) or []
+            hit = c11_fwrt.replay_witness(run, build_fw(run), w, tables(run)["fw"]) or []
         else:
             hit = [x for x in now if all(x.get(k) == w.get(k) for k in keys)]
         for x in hit:
